@@ -403,6 +403,17 @@ def tree_features(tree, kw):
                 feats.add('join:ts-model-with-injected-data')
             if 'X' in sq and len(sq) > 1 and any(type(m).__name__ == 'Select' for m in walk(list(n.targets or []))):
                 feats.add('join:ts-model-with-target-subselect')
+        if n.where is not None:
+            # top-level conjuncts `col = ...` naming the same column twice (a model argument given twice: the later wins)
+            eq, stack = [], [n.where]
+            while stack:
+                w = stack.pop()
+                if type(w).__name__ == 'BinaryOperation' and str(w.op).lower() == 'and':
+                    stack.extend(w.args)
+                elif type(w).__name__ == 'BinaryOperation' and w.op == '=' and type(w.args[0]).__name__ == 'Identifier':
+                    eq.append(str(w.args[0]).lower())
+            if len(eq) != len(set(eq)):
+                feats.add('where:same-column-equated-twice')
         if getattr(n, 'cte', None):
             feats.add('has:cte')
             for m in walk([n.cte, n.targets, n.from_table, n.where]):
